@@ -44,6 +44,7 @@ def sweep(world, rep, ts):
         nb_forms.append(nodes[:len(nodes) // 2] + [unk])
         nb_forms.append(list(reversed(nodes[len(nodes) // 2:])))
     nb_forms.append([unk])
+    nb_forms = [(f, False) for f in nb_forms] + [(f, True) for f in nb_forms[1:] if f and len(f) > 1][:1]
     n_eval = 0
     for t in ts:
         E = [m.oriented(k) for k in m.edges_at(t)]       # list of (u, v); U: one arbitrary orientation
@@ -55,11 +56,21 @@ def sweep(world, rep, ts):
             return frozenset((a, b))
 
         # ---- interactions / in_ / out_
-        for nb in nb_forms:
+        for nb_list, as_iter in nb_forms:
+            # nbunch is "a container of nodes, iterated through once": also handed over as a one-shot iterator
+            class _NB:
+                def __init__(self, xs):
+                    self.xs = xs
+
+                def __call__(self):
+                    return iter(list(self.xs)) if as_iter else self.xs
+            nbf = _NB(nb_list)
+            nb = nb_list
             inb = (lambda x: True) if nb is None else (lambda x, s=set(nb): x in s)
             for fn, name in ((g.interactions, 'interactions'), (lambda nbunch=None, t=None: dn.interactions(g, nbunch, t=t),
-                                                                'dn.interactions')):
-                r = get(fn, name, t, nb, t=t) if name == 'interactions' else get(fn, name, t, nb, t)
+                                                                'dn.interactions'),
+                             (lambda nbunch=None, t=None: list(g.interactions_iter(nbunch, t)), 'interactions_iter')):
+                r = get(fn, name, t, nbf(), t=t) if name == 'interactions' else get(fn, name, t, nbf(), t)
                 got = [(x[0], x[1]) for x in r]
                 if not D:
                     exp = ms(und(a, b) for a, b in E if inb(a) or inb(b))
@@ -99,15 +110,19 @@ def sweep(world, rep, ts):
                         raise V('interactions', name, t, got, exp_all, {'nbunch': repr(nb)})
                 n_eval += 1
             if D:
-                got = [(x[0], x[1]) for x in get(g.out_interactions, 'out_interactions', t, nb, t=t)]
-                exp = [(a, b) for a, b in E if inb(a)]
-                if ms(got) != ms(exp):
-                    raise V('interactions', 'out_interactions', t, got, exp, {'nbunch': repr(nb)})
-                got = [(x[0], x[1]) for x in get(g.in_interactions, 'in_interactions', t, nb, t=t)]
-                exp = [(a, b) for a, b in E if inb(b)]
-                if ms(got) != ms(exp):
-                    raise V('interactions', 'in_interactions', t, got, exp, {'nbunch': repr(nb)})
-                n_eval += 2
+                for name, fn in (('out_interactions', g.out_interactions),
+                                 ('out_interactions_iter', lambda nbunch=None, t=None: list(g.out_interactions_iter(nbunch, t)))):
+                    got = [(x[0], x[1]) for x in get(fn, name, t, nbf(), t=t)]
+                    exp = [(a, b) for a, b in E if inb(a)]
+                    if ms(got) != ms(exp):
+                        raise V('interactions', name, t, got, exp, {'nbunch': repr(nb)})
+                for name, fn in (('in_interactions', g.in_interactions),
+                                 ('in_interactions_iter', lambda nbunch=None, t=None: list(g.in_interactions_iter(nbunch, t)))):
+                    got = [(x[0], x[1]) for x in get(fn, name, t, nbf(), t=t)]
+                    exp = [(a, b) for a, b in E if inb(b)]
+                    if ms(got) != ms(exp):
+                        raise V('interactions', name, t, got, exp, {'nbunch': repr(nb)})
+                n_eval += 4
             # ---- degree family, dict forms
             if True:
                 sel = [n for n in nodes if inb(n)]
@@ -118,14 +133,14 @@ def sweep(world, rep, ts):
                              ('out_degree', g.out_degree, lambda n: len(m.succ(n, t)))]
                 for name, fn, f in fams:
                     f = f or fams[0][2]
-                    r = get(fn, name, t, nb, t=t)
+                    r = get(fn, name, t, nbf(), t=t)
                     exp = {n: f(n) for n in sel}
                     check_degree_dict(world, name, t, dict(r), exp, D, loops_at, guards, nb)
                     n_eval += 1
                 for name, fn, f in ([('degree_iter', g.degree_iter, fams[0][2])] +
                                     ([('in_degree_iter', g.in_degree_iter, fams[2][2]),
                                       ('out_degree_iter', g.out_degree_iter, fams[3][2])] if D else [])):
-                    r = list(get(lambda: list(fn(nb, t=t)), name, t))
+                    r = list(get(lambda: list(fn(nbf(), t=t)), name, t))
                     if len(r) != len(dict(r)):
                         raise V('degree', name, t, r, 'each node once')
                     check_degree_dict(world, name, t, dict(r), {n: f(n) for n in sel}, D, loops_at, guards, nb)
